@@ -256,6 +256,7 @@ func (tr *Trans) callFunc(fr *Frame, res ssa.Value, fn *ssa.Function, binds []*V
 	inPkg := tr.eng.inTarget(fn)
 	tr.curBinds = binds
 	defer func() { tr.curBinds = nil }()
+	tr.atCall(fr, key, args, pos)
 	if inPkg && fn.Signature.Recv() != nil && len(args) > 0 && !(ct != nil && ct.NilRecv) {
 		if _, ok := fn.Signature.Recv().Type().Underlying().(*types.Pointer); ok {
 			tr.assertSafe("(not (= "+tr.expr(args[0])+" 0))", "nil-receiver", pos, "method "+key+" called on nil receiver")
@@ -1028,6 +1029,47 @@ func (tr *Trans) appendBuiltin(fr *Frame, res ssa.Value, c *ssa.CallCommon, args
 	}
 	tr.upd(comp, srt, r, arr)
 	tr.define(fr, res, fmt.Sprintf("(mk_slice %s (+ (s_len %s) %s))", r, s, elen))
+}
+
+// atCall: site obligations of the enclosing contract, `atcall "callee#n" label: cond` — at the n-th call of callee
+// (in source order of translation; no "#n" = every call) the condition must hold over the locals visible there.
+func (tr *Trans) atCall(fr *Frame, key string, args []*Val, pos token.Pos) {
+	var ct *Contract
+	for f := tr.fn; f != nil && ct == nil; f = f.Parent() {
+		if c := tr.eng.contractFor(f); c != nil && len(c.AtCalls) > 0 {
+			ct = c
+		}
+	}
+	if ct == nil {
+		return
+	}
+	if tr.atCallN == nil {
+		tr.atCallN = map[string]int{}
+	}
+	tr.atCallN[key]++
+	n := tr.atCallN[key]
+	for _, cl := range ct.AtCalls {
+		if cl.Callee != key && cl.Callee != fmt.Sprintf("%s#%d", key, n) {
+			continue
+		}
+		cl.Used = true
+		sc := tr.pointScope(fr, pos)
+		for i, a := range args {
+			if a != nil && a.T != nil && (a.K == VExpr) {
+				sc.vars[fmt.Sprintf("$arg%d", i)] = TExpr{E: tr.expr(a), Sort: tr.sortOf(a.T).Sort, GoT: a.T}
+			}
+		}
+		te, err := sc.elab(cl.E)
+		if err != nil {
+			tr.eng.fatal("%s:%d: atcall %q: %v", ct.File, cl.Line, cl.Callee, err)
+			continue
+		}
+		props := cl.Tags
+		if len(props) == 0 {
+			props = ct.Tags
+		}
+		tr.cur.assert(te.E, tr.restrict(tr.ob("atcall", fmt.Sprintf("%s#%d[%s]", key, n, cl.Name), pos, cl.Src, props), cl))
+	}
 }
 
 // restrict: a clause that says "uses a,b" is proved from those labelled invariants only.
